@@ -137,6 +137,10 @@ def _():
 def _():
     return _run("vtt", b"WEBVTT\n\n" + b"9" * 400 + b":00:01.000 --> " + b"9" * 400 + b":00:02.000\nx\n", 0, "OverflowError", "add_isd|to_time_format")
 
+@witness("C18", "imsc-writer-aspect-ratio-overflow")
+def _():
+    return _run("imsc", TT % (b'xmlns:ittp="http://www.w3.org/ns/ttml/profile/imsc1#parameter" ittp:aspectRatio="' + b"9" * 400 + b' 3"', b"<body/>"), 0, "OverflowError", "DisplayAspectRatioAttribute")
+
 @witness("C18", "imsc-writer-special-values")
 def _():
     return _run("imsc", TT % (b"", b'<body><div><p><span tts:textEmphasis="none">a</span></p></div></body>'), 0, "AttributeError", r"imsc/style_properties\.py")
